@@ -181,7 +181,7 @@ class A:
             # a batch whose first value is already present (the chunk's first member at or after v), the rest mostly new
             v = (self.val(x) // CH) * CH if r.random() < 0.7 else self.val(x)
             n = r.choice([1, 3, 10])
-            g.emit("addmanyfrom %s %d %d" % (x, v, n))
+            g.emit("addmanyfrom %s %d %d %d" % (x, v, n, r.choice([1, 2, 3, 257, 4099, 6007])))
             self.keys[x] |= {k for k in range(v // CH, min(65536, v // CH + 2))} | self.keys[x]
             self.keys[x] |= set(k for k in self.allkeys() if k >= v // CH)
             g.count("mut:addmanyfrom")
